@@ -12,6 +12,7 @@ for d in sorted(glob.glob('seeded/S-*')):
     funcs = sorted(set(x.strip() for x in re.findall(r'^@@ .* @@ (.*)$', patch, re.M)))
     note = m.get('note') or m.get('history') or 'caught by the quick check as first written'
     caught = 'yes' if m.get('caught_by_quick') else ('thorough tier only' if m.get('caught_by_thorough') else 'NO')
+    if m.get('superseded'): caught = 'superseded by a later repair of /repo (caught on the tree it was written for)'
     first = 'missed' if ('MISSED' in note or 'MASKED' in note or m.get('first_quick_check_exit') == 0) else 'caught'
     others = ', '.join(x for x in matrix.get(sid, {}).get('caught_by', []) if x != m['property'])
     rows.append((sid, m['property'], ', '.join(files), '; '.join(f[:60] for f in funcs)[:120], first, caught, others, note))
@@ -23,7 +24,7 @@ with open('seeded/INDEX.md', 'w') as f:
             'the 210/5 baseline in the changed worktree and the demonstration failing with / passing without the change.\n\n')
     n = len(rows); missed = sum(1 for r in rows if r[4] == 'missed')
     f.write(f'{n} changes; {n - missed} caught by the property\'s quick check as it stood when the change arrived, {missed} missed or masked at first and caught after the check was strengthened '
-            f'(the note says how); {sum(1 for r in rows if r[5] == "yes")} of {n} caught now by the quick check, {sum(1 for r in rows if r[5].startswith("thorough"))} more by the thorough tier only.\n\n')
+            f'(the note says how); {sum(1 for r in rows if r[5] == "yes")} of {n - sum(1 for r in rows if r[5].startswith("superseded"))} live changes caught now by the quick check (`tools/seed_recheck.sh`), {sum(1 for r in rows if r[5].startswith("thorough"))} more by the thorough tier only, {sum(1 for r in rows if r[5].startswith("superseded"))} superseded by a later repair in the same function.\n\n')
     f.write('| id | property | file(s) | code touched | first run | caught now by `./check <property> --tier quick` | also caught by | notes |\n|---|---|---|---|---|---|---|---|\n')
     for r in rows:
         f.write('| ' + ' | '.join(x.replace('|', '\\|') for x in r) + ' |\n')
